@@ -6,7 +6,7 @@ Nothing here is specific to the code base being analysed.
 import re
 
 INT_TYS = {'u8': 8, 'u16': 16, 'u32': 32, 'u64': 64, 'u128': 128, 'usize': 64,
-           'i8': 8, 'i16': 16, 'i32': 32, 'i64': 64, 'i128': 128, 'isize': 64}
+           'i8': 8, 'i16': 16, 'i32': 32, 'i64': 64, 'i128': 128, 'isize': 64, 'u256': 256}
 
 
 class ParseError(Exception):
